@@ -2604,6 +2604,12 @@ class KmipEngine(object):
                 key_info = key_wrapping_spec.encryption_key_information
                 encryption_key_uuid = key_info.unique_identifier
                 encryption_key_params = key_info.cryptographic_parameters
+                if encryption_key_params is None:
+                    raise exceptions.InvalidField(
+                        "The encryption key information of the key wrapping "
+                        "specification is missing the cryptographic "
+                        "parameters."
+                    )
 
                 try:
                     key = self._get_object_with_access_controls(
